@@ -254,6 +254,47 @@ pub fn generic_shrink(s: &Scenario) -> Vec<Scenario> {
         c.wire = crate::wire::Fmt::Bin;
         out.push(c);
     }
+    // default identifiers
+    if s.id_scheme != "default" {
+        let mut c = s.clone();
+        c.id_scheme = "default".into();
+        c.ids_hex = crate::genr::default_ids_hex(&s.suite, s.np());
+        out.push(c);
+    }
+    // one participant fewer: the last participant node, if nothing refers to it
+    if s.spares == 0 && s.n > 2 && s.t < s.n {
+        let last = s.n as usize - 1;
+        let referenced = s.phases.iter().flatten().any(|i| match i {
+            Inst::Sign { signers, .. } => signers.contains(&last),
+            Inst::RefreshDealer { remaining } | Inst::RefreshDkg { remaining } => remaining.contains(&last),
+            Inst::Repair { target, helpers } => *target == last || helpers.contains(&last),
+            _ => false,
+        });
+        if !referenced {
+            let old_hub = s.hub();
+            let mut c = s.clone();
+            c.n -= 1;
+            c.ids_hex.remove(last);
+            let new_hub = c.hub();
+            let remap = |n: usize| if n == old_hub { Some(new_hub) } else if n == last { None } else { Some(n) };
+            let remap_m = |m: &MsgRef| Some(MsgRef { inst: m.inst, kind: m.kind, from: remap(m.from)?, to: remap(m.to)? });
+            c.faults = s
+                .faults
+                .iter()
+                .filter_map(|f| {
+                    Some(match f {
+                        Fault::Drop(m) => Fault::Drop(remap_m(m)?),
+                        Fault::Dup(m) => Fault::Dup(remap_m(m)?),
+                        Fault::Hold(m, k) => Fault::Hold(remap_m(m)?, *k),
+                        Fault::Crash { node, after, down_for } => Fault::Crash { node: remap(*node)?, after: remap_m(after)?, down_for: *down_for },
+                        Fault::CrashAfterStart { node, inst, down_for } => Fault::CrashAfterStart { node: remap(*node)?, inst: *inst, down_for: *down_for },
+                        Fault::Partition { nodes, after, steps } => Fault::Partition { nodes: nodes.iter().filter_map(|n| remap(*n)).collect(), after: remap_m(after)?, steps: *steps },
+                    })
+                })
+                .collect();
+            out.push(c);
+        }
+    }
     // simplify signing instances: empty message, fewer signers
     for (pi, ph) in s.phases.iter().enumerate() {
         for (ii, inst) in ph.iter().enumerate() {
